@@ -133,7 +133,7 @@ func propC19(c c19Case) hh.Verdict {
 					}
 				}
 			}
-			inSnap = model.CanonCapJSON(reflect.ValueOf(in))
+			inSnap = model.CanonCapJSON(reflect.ValueOf(in)) + " types=" + model.TypeTree(reflect.ValueOf(in))
 			if len(st.Input.M) > 0 || len(st.Input.L) > 0 {
 				for _, kv := range st.Input.M {
 					if len(kv.V.M) > 0 || len(kv.V.L) > 0 {
@@ -152,7 +152,7 @@ func propC19(c c19Case) hh.Verdict {
 			return hh.Fail("step %d: panic: %v", i, res.Panic)
 		}
 		if st.Mode == "parse" {
-			if after := model.CanonCapJSON(reflect.ValueOf(in)); after != inSnap {
+			if after := model.CanonCapJSON(reflect.ValueOf(in)) + " types=" + model.TypeTree(reflect.ValueOf(in)); after != inSnap {
 				return hh.Fail("step %d: Parse modified its input data: before %s after %s", i, inSnap, after)
 			}
 		} else if pure {
